@@ -70,6 +70,8 @@ def run(ctx: Ctx):
     )
     res.rule("STATS-FROM-FIT", "CP_PLSR.predict / transform centre the query data with the means stored by fit: no statistic (mean / std / ...) of the query batch is computed, directly or through a helper whose statistic parameter keeps its None default", floor=2)
     ctx.guarded(stats_from_fit, ctx)
+    res.rule("FILL-COMPLETE", "CP_PLSR.fit writes one column of every preallocated (all-zero) loading matrix per pass of its component loop `for c in range(n_components)`; that loop has no early exit (break / return) of its own, so no component is left at its zero initial value (loadings of every component have unit norm)", floor=2)
+    ctx.guarded(fill_complete, ctx)
     for cq, spec in REGRESSORS.items():
         ci = repo.cls(cq)
         fit = ci.methods.get("fit")
@@ -261,3 +263,46 @@ def stats_from_fit(ctx: Ctx):
             ctx.finding("STATS-FROM-FIT", m, c, f"`{ci.name}.{mname}` computes a statistic of the query batch at `{src(c)[:60]}`{extra}: a sample's result then depends on which other samples are in the batch, a single sample is centred to zero, and predictions no longer equal transform(X) contracted with the fitted coefficients -- the means stored by fit must be used", construct=f"{ci.name}.{mname}: statistic of the query batch {src(c)[:50]}")
     if n == 0:
         raise AnalysisError("STATS-FROM-FIT: nothing analysed")
+
+
+# ---------------------------------------------------------------------------------
+# FILL-COMPLETE: every component of the PLS model is written
+# ---------------------------------------------------------------------------------
+def fill_complete(ctx: Ctx):
+    repo, res = ctx.repo, ctx.res
+    f = repo.func("tensorly.regression.cp_plsr.CP_PLSR.fit")
+    loops = []
+    for lp in own_scope_nodes(f.node):
+        if isinstance(lp, ast.For) and isinstance(lp.target, ast.Name) and isinstance(lp.iter, ast.Call) and is_name(lp.iter.func, "range") and any(isinstance(n, ast.Attribute) and n.attr == "n_components" for n in ast.walk(lp.iter)):
+            # the loop stores column `c` of some exposed matrix
+            c = lp.target.id
+            stores = [u for u in ast.walk(lp) if isinstance(u, ast.Call) and call_name(u) == "index_update" and len(u.args) >= 2 and any(isinstance(n, ast.Name) and n.id == c for n in ast.walk(u.args[1]))]
+            if stores:
+                loops.append((lp, c, stores))
+    if not loops:
+        raise AnalysisError("FILL-COMPLETE: the component loop of CP_PLSR.fit (for c in range(self.n_components) storing column c) was not found; cannot decide")
+    for lp, c, stores in loops:
+        res.instance("FILL-COMPLETE", f"{f.qname}: component loop over `{c}`", sample={"column_stores": len(stores)})
+
+        def own_exits(block, inner):
+            out = []
+            for st in block:
+                if isinstance(st, (ast.For, ast.While)):
+                    out += own_exits(st.body, True) + own_exits(st.orelse, inner)
+                    continue
+                if isinstance(st, ast.Break) and not inner:
+                    out.append(st)
+                if isinstance(st, ast.Return):
+                    out.append(st)
+                for fld in ("body", "orelse", "finalbody"):
+                    sub = getattr(st, fld, None)
+                    if isinstance(sub, list) and sub and isinstance(sub[0], ast.stmt) and not isinstance(st, (ast.FunctionDef, ast.For, ast.While)):
+                        out += own_exits(sub, inner)
+                for h in getattr(st, "handlers", []) or []:
+                    out += own_exits(h.body, inner)
+            return out
+
+        exits = own_exits(lp.body, False)
+        res.instance("FILL-COMPLETE", f"{f.qname}: early exits of the component loop", sample={"exits": [src(e)[:40] for e in exits], "ok": not exits})
+        for e in exits:
+            ctx.finding("FILL-COMPLETE", f, e, f"the component loop `for {c} in {src(lp.iter)[:40]}` can be left early (`{src(e)[:40]}` at line {e.lineno}): the columns of the preallocated loading matrices that were not reached stay zero, so the model exposes components whose loadings do not have unit norm (and predict / transform use them)", construct=f"CP_PLSR.fit: early exit of the component loop ({src(e)[:30]})")
